@@ -15,6 +15,10 @@ func Show(v any) string {
 	return "mid1:" + leaf.Describe(v)
 }
 
+// MakeDeep returns a type declared two levels below the package that reflects
+// on it (top), which neither imports leaf nor is imported by leaf's users in main.
+func MakeDeep() leaf.Deep { return leaf.Deep{DeepName: "d", DeepRank: 3} }
+
 func Make(tag string) Mid1 {
 	return Mid1{L: leaf.New(tag, len(tag)), Tag: tag}
 }
@@ -36,7 +40,7 @@ func Scramble(n int) int {
 	if n > 10 {
 		acc *= 3
 	}
-	return acc + hardened(n) + trashed(n)
+	return acc + hardened(n)
 }
 
 // hardened exercises dispatcher hardening (key material is drawn at random).
@@ -50,17 +54,4 @@ func hardened(n int) int {
 		return n - 100
 	}
 	return 3*n + 1
-}
-
-// trashed exercises trash block generation (candidates come from maps).
-//
-//garble:controlflow flatten_passes=1 trash_blocks=6
-func trashed(n int) int {
-	if n < 0 {
-		return -n
-	}
-	if n%5 == 0 {
-		return n / 5
-	}
-	return n + 5
 }
